@@ -92,6 +92,40 @@ pub fn run(r: &mut Report) {
            format!("verdict_ok={:?}", res), matches!(res, Ok(false)));
     let (res, _, _) = run_case(StepFault::None, inspection("a", &["false"], allow_all(), allow_all()));
     r.case("nonzero-exit-is-fatal-when-named-like-a-step", json!({"inspection": "a", "step": "a", "run": ["false"]}), "Err", format!("verdict_ok={:?}", res), matches!(res, Ok(false)));
+    // .. and its MATCH rules compare what it recorded (sha256 of the file it finds) with what the step recorded, whatever
+    // algorithms the step used: only a step recording with exactly the same digest map lets the artifact through
+    {
+        use in_toto::crypto::{HashAlgorithm, HashValue};
+        use in_toto::models::{LinkMetadataBuilder, TargetDescription, rule::Artifact};
+        let dig = |alg: &HashAlgorithm, data: &[u8]| -> HashValue { HashValue::new(match alg {
+            HashAlgorithm::Sha256 => ring::digest::digest(&ring::digest::SHA256, data).as_ref().to_vec(),
+            _ => ring::digest::digest(&ring::digest::SHA512, data).as_ref().to_vec() }) };
+        for (algs, algs_id) in [(vec![HashAlgorithm::Sha256], "sha256"), (vec![HashAlgorithm::Sha512], "sha512"), (vec![HashAlgorithm::Sha256, HashAlgorithm::Sha512], "sha256+sha512")] {
+            for same_content in [true, false] {
+                let _g = CWD_LOCK.lock().unwrap();
+                let owner = key(1); let ka = key(2);
+                let work = tmpdir(); let links = tmpdir();
+                let recorded: &[u8] = if same_content { b"final" } else { b"other" };
+                let td: TargetDescription = algs.iter().map(|a| (a.clone(), dig(a, recorded))).collect();
+                let la = LinkMetadataBuilder::new().name("a".into()).products([(VirtualTargetPath::new("x".into()).unwrap(), td)].into_iter().collect()).build().unwrap();
+                write_link(links.path(), "a", ka.key_id(), &signed_link(&la, &[&ka]));
+                let src = links.path().join("final.src");
+                std::fs::write(&src, b"final").unwrap();
+                let insp = inspection("insp", &["cp", src.to_str().unwrap(), "x"], allow_all(),
+                    vec![ArtifactRule::Match { pattern: VirtualTargetPath::new("x".into()).unwrap(), in_src: None, with: Artifact::Products, in_dst: None, from: "a".into() },
+                         ArtifactRule::Disallow(VirtualTargetPath::new("*".into()).unwrap())]);
+                let l = layout(vec![step("a", 1, &[&ka], allow_all(), allow_all())], vec![insp], &[&ka], 30);
+                let lay = signed_layout(&l, &[&owner]);
+                let old = std::env::current_dir().unwrap();
+                std::env::set_current_dir(work.path()).unwrap();
+                let res = no_panic(|| in_toto_verify(&lay, owner_keys(&[&owner]), links.path().to_str().unwrap(), None)).map(|v| v.is_ok());
+                std::env::set_current_dir(old).unwrap();
+                let expect = same_content && algs_id == "sha256";
+                r.case("inspection-match-against-step-digests", json!({"step_recorded_with": algs_id, "file_found_equals_recorded": same_content}), if expect { "Ok" } else { "Err" },
+                       format!("verdict_ok={:?}", res), res == Ok(expect));
+            }
+        }
+    }
     // several inspections: EVERY one of them must have exited with 0, also when two of them share a name, in either order
     for (id, runs, expect) in [("two-inspections-second-fails", vec![("i1", "true"), ("i2", "false")], false), ("two-inspections-first-fails", vec![("i1", "false"), ("i2", "true")], false),
                                ("same-name-first-fails", vec![("dup", "false"), ("dup", "true")], false), ("same-name-second-fails", vec![("dup", "true"), ("dup", "false")], false),
